@@ -1,2 +1,3 @@
 /- C10 — order / equality algebra: the theorems are in Props/C11Sets.lean (namespace Dsd.C11). -/
 import DsdVerif.Props.C11Sets
+import DsdVerif.Props.C10Dunders
